@@ -151,13 +151,13 @@ def book_model_check(ctx, name, table, workers=16, timeout=1500, coverage=False,
     return r, beh
 
 
-def long_cfg_text(ids, timeout_on=True, real_time=False, max_serial=0, max_now=0, gen_depth=0):
-    gen = gen_depth != 0
+def long_cfg_text(ids, timeout_on=True, real_time=False, max_serial=0, max_now=0, gen_depth=0, stream=False):
+    gen = gen_depth > 0 or stream
     inv = list(LONG_INV) + (["GenEmit"] if gen_depth > 0 else [])
     return ("CONSTANTS\n  Ids = {%s}\n  TimeoutOn = %s\n  RealTime = %s\n  MaxSerial = %d\n  MaxNow = %d\n  GenDepth = %d\n"
-            "INIT Init\nNEXT %s\n%s%s\n") % (
+            "  Stream = %s\nINIT Init\nNEXT %s\n%s%s\n") % (
         ", ".join(str(i) for i in ids), "TRUE" if timeout_on else "FALSE", "TRUE" if real_time else "FALSE",
-        max_serial, max_now, gen_depth, "GenNext" if gen else "Next",
+        max_serial, max_now, gen_depth, "TRUE" if stream else "FALSE", "GenNext" if gen else "Next",
         "" if gen else "VIEW View\nCONSTRAINT Bounded\n", "\n".join("INVARIANT " + i for i in inv))
 
 
@@ -198,7 +198,7 @@ def long_stream(ctx, name, ids, depth, real_time=False, timeout_on=True, timeout
     """One very long history: BookLong streams one line per step (GenDepth < 0), so no history ghost grows in the state."""
     cfg = os.path.join(ctx.scratch, "gen_%s.cfg" % name)
     with open(cfg, "w") as f:
-        f.write(long_cfg_text(ids, timeout_on=timeout_on, real_time=real_time, gen_depth=-1))
+        f.write(long_cfg_text(ids, timeout_on=timeout_on, real_time=real_time, stream=True))
     outp = os.path.join(ctx.scratch, "gen_%s.out" % name)
     r = SLOTS.run(1, ctx.tlc, "BookLong", cfg, workers=1, timeout=timeout, heap="3g", simulate="num=1", depth=depth + 1,
                   seed=(ctx.seed if seed is None else seed), stdout_path=outp)
